@@ -228,7 +228,7 @@ BOUNDARY_IDS = [1, 255, 256, 2 ** 16 - 1, 2 ** 24, 2 ** 32 + 5, 2 ** 40 - 1, 2 *
                 0x000000000011, 2 ** 48 - 1]
 
 
-def discover_auto(ctx, rng, endian, device_id=None):
+def discover_auto(ctx, rng, endian, device_id=None, silent_on_wrong_token=False):
     """a V3 device registered under udpid(LE id) or udpid(BE id) is authenticated by auto-connect; the id is always
     taken as SIX bytes (ids with zero high or low bytes included)"""
     device_id = rng.randrange(2 ** 40, 2 ** 48) if device_id is None else device_id
@@ -248,6 +248,7 @@ def discover_auto(ctx, rng, endian, device_id=None):
         return [{"udpId": u, "token": wrong_t.hex(), "key": wrong_k.hex()}]    # the real service answers every query
     srv = SpecServer(ctx, {"nethome+us@mailinator.com": "password1"}, registry)
     dev = simdev.SimDevice(version=3, device_id=device_id, token=token, key=key)
+    dev.silent_on_wrong_token = silent_on_wrong_token      # (a unit that ignores a handshake with a foreign token)
     sn = discsim.ascii_bytes(rng, 32)
     pkt = discsim.spec_reply(ctx, rng, 3, device_id, "10.9.8.7", 6444, sn, b"net_ac_1234")
     out = {}
@@ -262,10 +263,11 @@ def discover_auto(ctx, rng, endian, device_id=None):
         net.add_udp_responder(responder)
         try:
             out["devices"] = await Discover.discover(timeout=1, auto_connect=True, get_async_client=srv.client_factory)
+            out["silent"] = silent_on_wrong_token
         except Exception as e:  # noqa
             out["exc"] = type(e).__name__ + ": " + str(e)[:80]
     vloop.run(scenario)
-    inp = {"id": device_id, "registered_under": endian}
+    inp = {"id": device_id, "registered_under": endian, "unit_silent_on_foreign_token": silent_on_wrong_token}
     devs = out.get("devices") or []
     ok = (len(devs) == 1 and devs[0].token == token.hex() and devs[0].key == key.hex() and devs[0].online)
     if not ok:
@@ -403,6 +405,9 @@ def run(ctx):
     for _ in range(6 if not thorough else 100):
         for endian in ("little", "big"):
             discover_auto(ctx, rng, endian)
+    for endian in ("little", "big"):
+        for _ in range(2 if not thorough else 20):
+            discover_auto(ctx, rng, endian, silent_on_wrong_token=True)
     for i, did in enumerate(BOUNDARY_IDS):
         discover_auto(ctx, rng, ("little", "big")[i % 2], device_id=did)
         if thorough:
